@@ -275,13 +275,19 @@ def check(ctx):
     # ------------------------------------------------------------------ R4
     ctx.rule("R4", "deterministic mode: fsd = 0 at initialisation; estimate = observation and SD literal 0 in the step branches", floor=3)
     det = []
+    det_extra = []
     for fn in R.bads.methods.values():
         for t, v, s, k in iter_stores(fn.node):
             if self_attr_of(t) == "fsd" and isinstance(t, ast.Attribute) and const_num(v) == 0:
                 g = guard_canon(prog, fn, s)
-                if any(x in ("(OS[uncertainty_handling_level] <= 0)", "not (0 < OS[uncertainty_handling_level])") for x in g):
+                lvl = ("(OS[uncertainty_handling_level] <= 0)", "not (0 < OS[uncertainty_handling_level])")
+                if any(x in lvl for x in g):
+                    det_extra.append((fn, s, [x for x in g if x not in lvl]))
                     det.append((fn, s))
     ctx.check(bool(det), opt, det[0][1] if det else None, "self.fsd = 0 on the deterministic branch", "fsd is not set to 0 for deterministic targets", construct="<missing deterministic fsd = 0>")
+    if det_extra and all(ex for _f, _s, ex in det_extra):
+        fn_, s_, ex = min(det_extra, key=lambda z: len(z[2]))
+        ctx.fail(fn_, s_, f"self.fsd = 0 for deterministic targets is only executed under the additional condition {ex}: otherwise the placeholder SD of the initial evaluation (NaN) survives into the result", construct=f"deterministic fsd = 0 under {' & '.join(ex)[:80]}")
     for step in (R.search_step, R.poll_step):
         lcs = R.logger_calls(step)
         for c in lcs:
